@@ -7,7 +7,8 @@ EXTENDS Integers, Sequences, FiniteSets
 Sd(cc, code, kind) ==
     [cc |-> cc, code |-> code, kind |-> kind, good |-> "GOOD", lab |-> "LAB", taxto |-> "GOV",
      issuer |-> "GOV", margin |-> FALSE, tre |-> 0, trector |-> FALSE, mkts |-> << >>,
-     aw |-> << >>, gift |-> FALSE, extra |-> << >>, late |-> << >>, params |-> << >>]
+     aw |-> << >>, gift |-> FALSE, extra |-> << >>, late |-> << >>, params |-> << >>,
+     taxable |-> FALSE]    \* TRUE: the user sets IsTaxable on a sector whose class is not taxable by default
 
 Bp(name, countries, sectors, free) ==
     [name |-> name, countries |-> countries, external |-> "none", sectors |-> sectors, free |-> free,
@@ -279,6 +280,22 @@ TRIREG == [Bp("TRIREG", C3reg,
 \* ---- as TWOBUS, the second business being an instance of a user-defined subclass of FixedMarginBusiness -----------
 TWOBUSX == [TWOBUS EXCEPT !.name = "TWOBUSX", !.sectors[5].kind = "FixedMarginBusinessSub"]
 
-AllBlueprints == {RINGFAN, SIMPLAIN, SIMBOOK, SIMEX1BOOK, PCBOOK, REGBOOK, REG2BOOK, MULTIX, TRIREG, TWOBUSX, RING3, REG2, GOLDCB, TWOBUS, TWOGIFTS, SIMBOND, IMPORTRES, NOEXT3, SIMX, SIMR, SIMEXR, JOIN2, JOIN2X, GOLD2, GOLDNOEXT, SIM, SIMEX, SIMCAP, SIMMARGIN, SIMMON, SIMDEP, PC, MULTI, FED, GIFT, GIFT2, IMPORT, NOEXT1, NOEXT2, NOSUP, TWOSUP}
+\* the business also buys its own good (intermediate consumption): one sector on both sides of a market
+SELFBUY == [SIM EXCEPT !.name = "SELFBUY", !.freeq = {3, 6}, !.sectors[3].extra = << "DEM_GOOD" >>,
+                       !.exo = << Exo(1, "DEM_GOOD"), Exo(3, "DEM_GOOD") >>]
+
+\* a dividend-paying business that the user has made taxable (IsTaxable = True), next to capitalists
+TAXBUS == [SIMCAP EXCEPT !.name = "TAXBUS", !.free = {3, 4, 5, 7}, !.freeq = {3, 5}, !.sectors[3].taxable = TRUE]
+
+\* two sectors that could receive the dividends of the business: ill-formed (refused since fix 49dd591; before it the
+\* first declared one was paid, so the result depended on the declaration order - MC_ModelBuild_asfound2.cfg)
+TWOCAPS == [Bp("TWOCAPS", C1,
+           << Sd("C", "GOV", "ConsolidatedGovernment"), Sd("C", "HH", "Household"),
+              [Sd("C", "BUS", "FixedMarginBusiness") EXCEPT !.margin = TRUE], Sd("C", "CAPA", "Capitalists"),
+              Sd("C", "CAPB", "Capitalists"),
+              Sd("C", "TF", "TaxFlow"), Sd("C", "LAB", "Market"), Sd("C", "GOOD", "Market") >>, {3, 4, 5, 8})
+        EXCEPT !.freeq = {4, 5}, !.exo = << Exo(1, "DEM_GOOD") >>, !.wellformed = FALSE]
+
+AllBlueprints == {SELFBUY, TAXBUS, TWOCAPS, RINGFAN, SIMPLAIN, SIMBOOK, SIMEX1BOOK, PCBOOK, REGBOOK, REG2BOOK, MULTIX, TRIREG, TWOBUSX, RING3, REG2, GOLDCB, TWOBUS, TWOGIFTS, SIMBOND, IMPORTRES, NOEXT3, SIMX, SIMR, SIMEXR, JOIN2, JOIN2X, GOLD2, GOLDNOEXT, SIM, SIMEX, SIMCAP, SIMMARGIN, SIMMON, SIMDEP, PC, MULTI, FED, GIFT, GIFT2, IMPORT, NOEXT1, NOEXT2, NOSUP, TWOSUP}
 QuickBlueprints == { [b EXCEPT !.free = b.freeq] : b \in AllBlueprints }
 =============================================================================
